@@ -549,38 +549,95 @@ def load_functions(F):
     return out
 
 
+SAME_FILE_WRAPPERS = {"Path", "pathlib.Path", "PurePath", "str", "os.fspath", "fspath", "os.path.abspath", "os.path.realpath", "os.path.expanduser",
+                      "os.path.normpath", "os.fsdecode"}
+
+
 def rule_reader_api(ctx):
+    """Every loader opens exactly the file it was given, through `with np.load(<that file>)` (zip container, no pickle, no mmap), or
+    delegates to a class loader with that same file; no prefix-tolerant reader touches it."""
     F = facts_of(ctx)
     for f in load_functions(F):
         fname = f.params[0] if f.params else "filename"
-        uses = []
-        for n in walk_no_nested(f.node):
-            if isinstance(n, ast.Call):
-                d = dotted(n.func) or ""
-                argnames = {x.id for a in list(n.args) + [k.value for k in n.keywords] for x in ast.walk(a) if isinstance(x, ast.Name)}
-                if fname in argnames:
-                    uses.append((n, d))
-        if not uses:
-            ctx.ob("reader-api", f, f.node, "%s(%s)" % (f.qualname, fname), "the loader reads the file", None, "filename is never used")
-        for n, d in uses:
-            if d in READERS_OK:
+        w = F.walk(f)
+        calls = [e for e in w.events if e.kind == "call" and isinstance(e.node, ast.Call)]
+        by_result = {id(e.result): e for e in calls if getattr(e, "result", None) is not None}
+
+        def same_file(v, depth=0):
+            """v denotes the caller's file: the parameter itself, possibly through path-normalising constructors."""
+            if isinstance(v, Num) and v.lin == Lin.term(("param", fname)):
+                return True
+            e = by_result.get(id(v))
+            if e is not None and depth < 4 and (e.name or "") in SAME_FILE_WRAPPERS and len(e.args) == 1 and not e.kwargs:
+                return same_file(e.args[0], depth + 1)
+            return False
+
+        def derived(v, depth=0):
+            """v is computed from the file name in some way."""
+            if isinstance(v, Num):
+                return ("param", fname) in v.lin.terms()
+            e = by_result.get(id(v))
+            if e is not None and depth < 6:
+                if any(derived(a, depth + 1) for a in list(e.args) + list((e.kwargs or {}).values())):
+                    return True
+                # a method of a value derived from the file name (Path(filename).with_suffix(...))
+                fn = e.node.func
+                if isinstance(fn, ast.Attribute) and isinstance(fn.value, ast.Name):
+                    rv = (getattr(e, "envsnap", None) or {}).get(fn.value.id)
+                    if rv is None:
+                        rv = next((x.value for x in reversed(on_path(w.events, e)) if x.kind == "assign" and getattr(x, "name", None) == fn.value.id), None)
+                    return rv is not None and derived(rv, depth + 1)
+            return False
+
+        readers = [e for e in calls if (e.name or "") in READERS_OK]
+        deleg = [e for e in calls if (e.name or "").endswith(".load") and isinstance(e.node.func, ast.Attribute) and (e.name or "") not in READERS_OK]
+        others = [e for e in calls if e not in readers and e not in deleg and any(derived(a) or same_file(a) for a in list(e.args) + list((e.kwargs or {}).values()))]
+        if not readers and not deleg:
+            ctx.ob("reader-api", f, f.node, "%s(%s)" % (f.qualname, fname), "the loader reads the file", None, "no np.load / class loader call found")
+        for g in group_by_node(readers):
+            res = []
+            n = g[0].node
+            for e in g:
                 bad = [k for k in n.keywords if (k.arg == "allow_pickle" and not (isinstance(k.value, ast.Constant) and k.value.value is False))
                        or k.arg == "mmap_mode" and not (isinstance(k.value, ast.Constant) and k.value.value is None)]
-                in_with = any(isinstance(w, ast.With) and any(it.context_expr is n for it in w.items) for w in walk_no_nested(f.node))
-                okk = not bad and in_with and len(n.args) >= 1
-                ctx.ob("reader-api", f, n, unparse(n, 60), "file read through `with np.load(filename)` (zip container, no pickle, no mmap)", okk,
-                       "" if okk else ("np.load with %s" % unparse(bad[0].value) if bad else "np.load result is not used as a context manager"))
-            elif d.endswith(".load") and d.split(".")[0] in ("CountMinLinear", "CountMinLog16", "CountMinLog8", "HeavyHitters", "HyperLogLog"):
-                ctx.ob("reader-api", f, n, unparse(n, 60), "delegation to a class loader (checked there)", True)
-            elif d in READERS_BAD or d.split(".")[-1] in ("fromfile", "memmap", "loadtxt", "open", "read_bytes", "read"):
-                ctx.ob("reader-api", f, n, unparse(n, 60), "no prefix-tolerant reader on a load path", False,
-                       "%s accepts a truncated file" % d)
+                in_with = any(isinstance(wn, ast.With) and any(it.context_expr is n for it in wn.items) for wn in walk_no_nested(f.node))
+                a0 = e.args[0] if e.args else (e.kwargs or {}).get("file")
+                same = same_file(a0)
+                okk = not bad and in_with and same
+                res.append((okk, "with np.load(<the caller's file>)" if okk else
+                            ("np.load with %s" % unparse(bad[0].value) if bad else "np.load result is not used as a context manager" if not in_with else
+                             "the file opened is `%s`, not the file the caller named: a complete sibling file can be loaded in place of a truncated one" % unparse(n.args[0] if n.args else n, 40)),
+                            fact_strs(e)))
+            agg(ctx, "reader-api", f, n, unparse(n, 60), "the caller's file is read through `with np.load(filename)` (zip container, no pickle, no mmap)", res)
+        for g in group_by_node(deleg):
+            n = g[0].node
+            cname = called_name(g[0]) if isinstance(n.func, ast.Name) else None
+            recv = n.func.value.id if isinstance(n.func.value, ast.Name) else None
+            v = (getattr(g[0], "envsnap", None) or {}).get(recv) if recv else None
+            if isinstance(v, Opaque) and isinstance(v.desc, tuple) and len(v.desc) == 2 and v.desc[0] == "global":
+                recv = v.desc[1]
+            known = recv in ("CountMinLinear", "CountMinLog16", "CountMinLog8", "HeavyHitters", "HyperLogLog")
+            res = []
+            for e in g:
+                same = bool(e.args) and same_file(e.args[0])
+                res.append((bool(known and same), "delegation to a class loader with the caller's file (checked there)" if known and same else
+                            ("unknown loader %s" % (e.name,) if not known else "the class loader is handed another file than the one the caller named"), fact_strs(e)))
+            agg(ctx, "reader-api", f, n, unparse(n, 60), "delegation to a class loader (checked there) with the same file", res)
+        for g in group_by_node(others):
+            e = g[0]
+            d = e.name or ""
+            if d in SAME_FILE_WRAPPERS:
+                continue
+            if d in READERS_BAD or d.split(".")[-1] in ("fromfile", "memmap", "loadtxt", "open", "read_bytes", "read", "read_text"):
+                ctx.ob("reader-api", f, e.node, unparse(e.node, 60), "no prefix-tolerant reader on a load path", False, "%s accepts a truncated file" % d)
+            elif d.split(".")[-1] in ("exists", "is_file", "isfile", "stat", "getsize"):
+                ctx.ob("reader-api", f, e.node, unparse(e.node, 60), "only metadata of the file is inspected", True)
+            elif isinstance(e.node.func, ast.Name) and ctx.model.lookup_class(f.module, e.node.func.id):
+                continue       # constructor fed from the archive's members
             else:
-                ctx.ob("reader-api", f, n, unparse(n, 60), "reader of the sketch file is a known API", None, "unknown reader %s" % d)
-        # members accessed by name: no positional/`files` iteration
-        for n in walk_no_nested(f.node):
-            if isinstance(n, ast.Attribute) and n.attr in ("files", "f") and isinstance(n.value, ast.Name):
-                pass
+                # something computed from the file name that is not handed to a reader is harmless; if it reaches a reader, the
+                # reader's own obligation reports it
+                continue
 
 
 def rule_no_swallow(ctx):
